@@ -150,6 +150,40 @@ fn diff(a: &Behaviour, b: &Behaviour, ins: &[String]) -> String {
     "?".into()
 }
 
+/// Child process: builds configurations of 1 100, 2 500 and 4 300 patterns through the cache (twice
+/// each, plus a near twin) and compares them with their uncached builds; prints one JSON line.
+pub fn large_probe() -> ! {
+    let mut problems: Vec<String> = vec![];
+    for (n, per_mode) in [(1_100usize, 100usize), (2_500, 2_500), (4_300, 430)] {
+        let make = |renamed: Option<usize>| -> Cfg {
+            let mut modes = vec![];
+            let mut k = 0;
+            while k < n {
+                let pats: Vec<CPat> = (k..(k + per_mode).min(n)).map(|i| CPat::new(&if Some(i) == renamed { format!("q{:05}", i) } else { format!("k{:05}", i) }, i)).collect();
+                modes.push(CMode { name: format!("M{}", modes.len()), pats, transitions: vec![] });
+                k += per_mode;
+            }
+            Cfg { modes }
+        };
+        for (what, cfg, probe, tt) in [("the list", make(None), format!("k{:05}", n / 2), n / 2), ("the list again", make(None), format!("k{:05}", n - 1), n - 1), ("the list with one keyword renamed", make(Some(n / 2)), format!("q{:05}", n / 2), n / 2)] {
+            let mode = tt / per_mode;
+            let scan = |sc: &Scanner| -> Vec<(usize, usize, usize)> {
+                let mut it = sc.find_iter(&probe);
+                scnr::ScannerModeSwitcher::set_mode(&mut it, mode);
+                it.map(|m| (m.token_type(), m.start(), m.end())).collect()
+            };
+            let r = catch(|| (cfg.build_cached().map(|sc| scan(&sc)).map_err(|e| e.to_string()), cfg.build_uncached().map(|sc| scan(&sc)).map_err(|e| e.to_string())));
+            match r {
+                Ok((a, b)) if a == b => {}
+                Ok((a, b)) => problems.push(format!("{n} patterns in modes of {per_mode}, {what}: build() gives {a:?} on {probe:?} in mode {mode}, build_uncached() gives {b:?}")),
+                Err(p) => problems.push(format!("{n} patterns in modes of {per_mode}, {what}: panicked: {p}")),
+            }
+        }
+    }
+    println!("{}", json!({"problems": problems}));
+    std::process::exit(0);
+}
+
 pub fn run(tier: Tier) -> ! {
     let mut run = Run::new("C13", tier);
     let fam = family();
@@ -455,6 +489,49 @@ pub fn run(tier: Tier) -> ! {
             }
         }
     }
+    // large configurations through the cache, in a child process with a watchdog
+    let large = {
+        let exe = std::env::current_exe().expect("own path");
+        let out = (|| -> std::io::Result<std::process::Output> {
+            let mut child = std::process::Command::new(&exe).arg("c13-large-probe").stdout(std::process::Stdio::piped()).stderr(std::process::Stdio::null()).spawn()?;
+            let limit = std::time::Duration::from_secs(if tier == Tier::Quick { 240 } else { 600 });
+            let started = std::time::Instant::now();
+            loop {
+                if child.try_wait()?.is_some() {
+                    return child.wait_with_output();
+                }
+                if started.elapsed() > limit {
+                    let _ = child.kill();
+                    let _ = child.wait();
+                    return Err(std::io::Error::new(std::io::ErrorKind::TimedOut, "watchdog"));
+                }
+                std::thread::sleep(std::time::Duration::from_millis(50));
+            }
+        })();
+        n_trans += 9;
+        let how = json!({"calls": ["build() and build_uncached() of 1 100 patterns in 11 modes, of 2 500 patterns in one mode, of 4 300 patterns in 10 modes; each list twice and once with one keyword renamed", "scan of one keyword in its mode"], "how": "harness/hookcheck c13-large-probe (child process)"});
+        match out {
+            Err(e) if e.kind() == std::io::ErrorKind::TimedOut => {
+                viol.add("", || Violation { key: String::new(), summary: "large configurations through build(): the child process (normally about 20 s) did not finish within the watchdog limit - a build() does not return".into(), replay: how.clone() });
+                json!({"outcome": "killed by the watchdog"})
+            }
+            Err(e) => refsem::evidence::machinery(&format!("cannot run the large-configuration probe: {e}")),
+            Ok(o) => match serde_json::from_slice::<serde_json::Value>(&o.stdout) {
+                Ok(v) => {
+                    for p in v["problems"].as_array().cloned().unwrap_or_default() {
+                        let p = p.as_str().unwrap_or("").to_string();
+                        viol.add("", || Violation { key: String::new(), summary: format!("large configurations through build(): {p}").chars().take(600).collect(), replay: how.clone() });
+                    }
+                    json!({"outcome": "finished", "problems": v["problems"].as_array().map(|a| a.len()).unwrap_or(0)})
+                }
+                Err(_) => {
+                    // the child died (stack overflow / abort) inside one of the builds
+                    viol.add("", || Violation { key: String::new(), summary: format!("large configurations through build(): the child process ended with {:?} (crash inside build(), e.g. unbounded recursion)", o.status), replay: how.clone() });
+                    json!({"outcome": format!("{:?}", o.status)})
+                }
+            },
+        }
+    };
     // (after a panic inside the lock the cache is poisoned and the hook itself panics)
     let _ = catch(cache_clear);
     let n_dis = viol.total();
@@ -474,6 +551,7 @@ pub fn run(tier: Tier) -> ! {
     cov.insert("transitions_where_cached_and_uncached_automata_differ_structurally_(informational)".into(), json!(dump_differs));
     cov.insert("long_history".into(), json!({"distinct_configurations": n_long, "build_calls": long_builds, "shape": "no clear; after every build the first, middle and previous configuration again; all of them at every power of two +-1 below 5000 and at the end forwards and backwards"}));
     cov.insert("builds_compared_directly_after_a_failing_build".into(), json!(after_failure));
+    cov.insert("large_configurations_through_the_cache_(child_process)".into(), large);
     cov.insert("cache_hits".into(), json!(hits));
     cov.insert("cache_misses".into(), json!(misses));
     cov.insert("failing_builds".into(), json!(fails));
